@@ -403,13 +403,41 @@ func stringContents(c *engine.Ctx) {
 			ms = append(ms, s) // surrounding blanks are the writer's deliberate trimming (copyright) and covered by the attribute menu
 		}
 	}
+	// long values: one value of 70 000 bytes (beyond every 64 KiB line or token buffer), of 12 000 characters that JSON
+	// writes as six-byte escapes, and of 1.1 MB
+	longs := map[string]string{"70000 x a": strings.Repeat("a", 70000), "12000 x <": strings.Repeat("<", 12000), "1100000 x ab": strings.Repeat("ab", 550000)}
+	for _, ln := range []string{"12000 x <", "70000 x a", "1100000 x ab"} {
+		for si := range slots {
+			si, ln := si, ln
+			if strings.Contains(slots[si].Name, "supplier") || strings.Contains(slots[si].Name, "originator") {
+				if ln == "12000 x <" {
+					continue // actor strings with characters that need a JSON escape: known finding (third-party decoder)
+				}
+			}
+			c.Case(func() any { return map[string]string{"attribute": slots[si].Name, "value": ln} }, func(t *engine.T) *engine.Violation {
+				p := &sbom.Node{Id: "a", Name: "pkg"}
+				f := &sbom.Node{Id: "b-1", Name: "file", Type: sbom.Node_FILE}
+				slots[si].Set(p, f, longs[ln])
+				nl := &sbom.NodeList{Nodes: []*sbom.Node{p, f}, Edges: []*sbom.Edge{{From: "a", Type: tc, To: []string{"b-1"}}}, RootElements: []string{"a"}}
+				if v := RoundTrip(t, docOf(nl), 2); v != nil {
+					if len(v.Detail) > 1500 {
+						v.Detail = v.Detail[:1500] + "…"
+					}
+					return v
+				}
+				t.State("long:" + slots[si].Name + ln)
+				t.Outcome("string-ok")
+				return nil
+			})
+		}
+	}
 	nNear := len(ms)
 	for _, s := range gen.Vocabulary() {
 		if strings.TrimSpace(s) == s {
 			ms = append(ms, s)
 		}
 	}
-	c.Bound("string-contents", fmt.Sprintf("%d text attributes x (%d near-strings + %d values from the vocabulary of the library's sources: every word-like string literal as written / lower / upper / title case, structural literals embedded in filler)", len(slots), nNear, len(ms)-nNear))
+	c.Bound("string-contents", fmt.Sprintf("%d text attributes x (%d near-strings + %d values from the vocabulary of the library's sources: every word-like string literal as written / lower / upper / title case, structural literals embedded in filler); every attribute with one value of 70 000 bytes, of 12 000 escaped characters and of 1.1 MB", len(slots), nNear, len(ms)-nNear))
 	for si := range slots {
 		for mi := range ms {
 			si, mi := si, mi
